@@ -9,8 +9,8 @@ import (
 // Graph is the harness's model of an instance's node graph.
 type Graph struct {
 	Root  string
-	Types map[string]string              // node id -> type (set when the first edge is created)
-	NodeP map[string]map[[2]string]data.Point // node id -> identity -> newest point
+	Types map[string]string                      // node id -> type (set when the first edge is created)
+	NodeP map[string]map[[2]string]data.Point    // node id -> identity -> newest point
 	Edges map[[2]string]map[[2]string]data.Point // (parent,id) -> identity -> newest edge point
 }
 
